@@ -3,14 +3,9 @@ package engine
 import (
 	"fmt"
 	"io"
-	"regexp"
 	"strings"
 	"sync"
 	"unicode/utf8"
-)
-
-var (
-	quotedAtomEscapePattern = regexp.MustCompile(`[[:cntrl:]]|\\|'`)
 )
 
 var (
@@ -328,7 +323,18 @@ func needQuoted(a Atom) bool {
 }
 
 func quote(s string) string {
-	return fmt.Sprintf("'%s'", quotedAtomEscapePattern.ReplaceAllStringFunc(s, quotedIdentEscape))
+	var sb strings.Builder
+	_, _ = sb.WriteRune('\'')
+	for _, r := range s {
+		// Escapes everything the lexer doesn't accept as is in a quoted token.
+		if isSingleQuotedCharacter(r) {
+			_, _ = sb.WriteRune(r)
+		} else {
+			_, _ = sb.WriteString(quotedIdentEscape(string(r)))
+		}
+	}
+	_, _ = sb.WriteRune('\'')
+	return sb.String()
 }
 
 func quotedIdentEscape(s string) string {
